@@ -1,6 +1,7 @@
 import BoltonsVerif.Generated.Src_socketutils
 import BoltonsVerif.C12.Model
 import BoltonsVerif.C12.Proofs
+import BoltonsVerif.Generated.C12_Consts
 /-
 C12 — source tie (round 3d): the methods of `boltons.socketutils.BufferedSocket`, regenerated from the Python source on every
 run (`harness/py2lean_c12.py` → `Generated/Src_socketutils.lean`, runtime `PyRtC12.lean`), do what the hand model
@@ -123,6 +124,10 @@ theorem netRecv_spec (n : Nat) : ∀ (s : List NEv),
 
 /-! ## `recv_size` -/
 
+/-- the exception a fault shows up as INSIDE a method before its handlers run: what the socket raised, or - for a
+    `socket.timeout` - any class the `except socket.timeout` clause catches all the same (the module's `Timeout`) -/
+def FaultAs (flt e : Exc) : Prop := e = flt ∨ (flt = .sockTimeout ∧ e = .timeout)
+
 abbrev RsFr := Fr (BufferedSocket.St Int) (BufferedSocket.recv_size.L Int) NW
 
 /-- what the result of the model's loop says about the outcome of the generated loop started with object state `self0`,
@@ -133,7 +138,7 @@ def RsLoopPost (self0 : BufferedSocket.St Int) (size0 : Int) (flt : Exc) (mr : R
   | .fuel => o.1 = .exc .outOfFuel
   | .tooLong => False
   | .closed => o.1 = .exc .connectionClosed ∧ join o.2.loc.chunks = mr.2.rbuf ∧ er o.2.w.script = mr.2.script
-  | .timeout => o.1 = .exc flt ∧ join o.2.loc.chunks = mr.2.rbuf ∧ er (settle o.2.w) = mr.2.script
+  | .timeout => (∃ e, o.1 = .exc e ∧ FaultAs flt e) ∧ join o.2.loc.chunks = mr.2.rbuf ∧ er (settle o.2.w) = mr.2.script
   | .ok bs => o.1 = .next ∧ er o.2.w.script = mr.2.script ∧ WInv o.2.w ∧
       bs = join o.2.loc.chunks ++
         (if o.2.loc.total_bytes - o.2.loc.size ≠ 0 then sliceTo o.2.loc.nxt (-(o.2.loc.total_bytes - o.2.loc.size)) else o.2.loc.nxt) ∧
@@ -180,10 +185,15 @@ theorem rs_loop (J : Int) (rs size : Nat) (tmo : Option Int) (hto : TOk J tmo) (
     subst ha hnx hsc
     rw [recvSizeLoop]
     by_cases hn : s.loc.nxt = []
-    · simp [Blk.whileLoop, BufferedSocket.recv_size.loop1.cond, BufferedSocket.recv_size.loop1.orelse, truthy, hn,
+    · have hcf : BufferedSocket.recv_size.loop1.cond (mnet J) lf s = false := by
+        simp [BufferedSocket.recv_size.loop1.cond, truthy, len, hn]
+      simp [Blk.whileLoop, hcf, BufferedSocket.recv_size.loop1.orelse, hn,
         RsLoopPost, Blk.seq, Blk.assign, Blk.raise]
     · have hc : BufferedSocket.recv_size.loop1.cond (mnet J) lf s = true := by
-        simp [BufferedSocket.recv_size.loop1.cond, truthy, hn]
+        have hlenI : (0 : Int) < (s.loc.nxt.length : Int) := by
+          have := List.length_pos_iff.mpr hn
+          omega
+        simp [BufferedSocket.recv_size.loop1.cond, truthy, len, hn, hlenI]
       by_cases hge : total + s.loc.nxt.length ≥ size
       · -- `break`
         have hx2 : ((total : Int) + (s.loc.nxt.length : Int) - (size : Int))
@@ -214,7 +224,7 @@ theorem rs_loop (J : Int) (rs size : Nat) (tmo : Option Int) (hto : TOk J tmo) (
             have hle : t - J ≤ 0 := by have := hto.2; omega
             simp [h5, h2, h3, h4, len, hge, hltI, hn, mnet_truthy_some, mnet_time, mnet_fsub, mnet_fle, mnet_fzero,
               Blk.call, Blk.raise, ht0, hlate, hle, unwrap,
-              RsLoopPost, hr, er, NEv.ev, sockRecv, rawFault, join_snoc, settle]
+              RsLoopPost, FaultAs, hr, er, NEv.ev, sockRecv, rawFault, join_snoc, settle]
         · have hchk : (mnet J).truthyOpt tmo = false ∨ (s.w.late = false ∧ ∃ t, tmo = some t ∧ 0 < t) := by
             cases tmo with
             | none => simp [mnet_truthy_none]
@@ -256,11 +266,11 @@ theorem rs_loop (J : Int) (rs size : Nat) (tmo : Option Int) (hto : TOk J tmo) (
             obtain ⟨w', hw1, hw2, hw3⟩ := hspec
             subst hw2
             rcases hchk with hno | ⟨hlate, t, rfl, htpos⟩
-            · simp [h5, h2, h3, h4, len, hge, hltI, hn, hno, Blk.call, mnet_recv, h1, hw1, RsLoopPost, join_snoc, settle, hw3]
+            · simp [h5, h2, h3, h4, len, hge, hltI, hn, hno, Blk.call, mnet_recv, h1, hw1, RsLoopPost, FaultAs, join_snoc, settle, hw3]
             · have hnle : ¬ t ≤ 0 := by omega
               have ht0 : t ≠ 0 := by omega
               simp [h5, h2, h3, h4, len, hge, hltI, hn, mnet_truthy_some, mnet_time, mnet_fsub, mnet_fle, mnet_fzero,
-                mnet_settimeout, Blk.call, mnet_recv, h1, hw1, hlate, ht0, hnle, unwrap, RsLoopPost, join_snoc, settle, hw3]
+                mnet_settimeout, Blk.call, mnet_recv, h1, hw1, hlate, ht0, hnle, unwrap, RsLoopPost, FaultAs, join_snoc, settle, hw3]
 
 /-- more fuel changes nothing once the model's loop has an answer -/
 theorem recvSizeLoop_mono (rs size : Nat) : ∀ (n : Nat) (acc : Bytes) (total : Nat) (nxt : Bytes) (script : List Ev),
@@ -387,12 +397,16 @@ theorem src_recv_size_eq_model (J : Int) (cfg : Cfg) (st : BufferedSocket.St Int
           · simp [finishMethod, outcome, Blk.seq, Blk.assign, Blk.raise, Exc.isSockTimeout, Exc.isException, k1, k4, hrs]
           · simp [scriptAfter, k5]
         | timeout =>
-          obtain ⟨k3, k4, k5⟩ := k3
+          obtain ⟨⟨e, k3, kf⟩, k4, k5⟩ := k3
           subst k3
           refine ⟨F'.w, ?_, ?_⟩
           · rcases hraw with ⟨ha, hb2⟩ | ⟨t, ha, hb2⟩
-            · simp [finishMethod, outcome, Blk.seq, Blk.assign, Blk.raise, Exc.isSockTimeout, Exc.isException, k1, k4, hrs, ha, hb2, hb]
-            · simp [finishMethod, outcome, Blk.seq, Blk.assign, Blk.raise, Exc.isSockTimeout, Exc.isException, k1, k4, hrs, ha, hb2, hb]
+            · rcases kf with kf | ⟨_, kf⟩ <;> subst kf <;>
+                simp [finishMethod, outcome, Blk.seq, Blk.assign, Blk.raise, Exc.isSockTimeout, Exc.isException, k1, k4, hrs, ha, hb2, hb]
+            · rcases kf with kf | ⟨kf0, _⟩
+              · subst kf
+                simp [finishMethod, outcome, Blk.seq, Blk.assign, Blk.raise, Exc.isSockTimeout, Exc.isException, k1, k4, hrs, ha, hb2, hb]
+              · rw [ha] at kf0; cases kf0
           · simp [scriptAfter, k5]
         | ok bs =>
           obtain ⟨k3, k4, k5, k6, k7⟩ := k3
@@ -435,12 +449,16 @@ theorem src_recv_size_eq_model (J : Int) (cfg : Cfg) (st : BufferedSocket.St Int
         · simp [finishMethod, outcome, Blk.seq, Blk.assign, Blk.raise, Exc.isSockTimeout, Exc.isException, k1, k4, hrs]
         · simp [scriptAfter, k5]
       | timeout =>
-        obtain ⟨k3, k4, k5⟩ := k3
+        obtain ⟨⟨e, k3, kf⟩, k4, k5⟩ := k3
         subst k3
         refine ⟨F'.w, ?_, ?_⟩
         · rcases hraw with ⟨ha, hb2⟩ | ⟨t, ha, hb2⟩
-          · simp [finishMethod, outcome, Blk.seq, Blk.assign, Blk.raise, Exc.isSockTimeout, Exc.isException, k1, k4, hrs, ha, hb2]
-          · simp [finishMethod, outcome, Blk.seq, Blk.assign, Blk.raise, Exc.isSockTimeout, Exc.isException, k1, k4, hrs, ha, hb2]
+          · rcases kf with kf | ⟨_, kf⟩ <;> subst kf <;>
+              simp [finishMethod, outcome, Blk.seq, Blk.assign, Blk.raise, Exc.isSockTimeout, Exc.isException, k1, k4, hrs, ha, hb2]
+          · rcases kf with kf | ⟨kf0, _⟩
+            · subst kf
+              simp [finishMethod, outcome, Blk.seq, Blk.assign, Blk.raise, Exc.isSockTimeout, Exc.isException, k1, k4, hrs, ha, hb2]
+            · rw [ha] at kf0; cases kf0
         · simp [scriptAfter, k5]
       | ok bs =>
         obtain ⟨k3, k4, k5, k6, k7⟩ := k3
@@ -468,5 +486,422 @@ example : ∃ w', BufferedSocket.recv_size (mnet 100) 10 ⟨[1], [], 10, some 5,
       er (scriptAfter (recvSize ⟨4, 10⟩ 3 ⟨[1], er [.chunk [2, 3, 4], .deadline]⟩).1 w')
         = (recvSize ⟨4, 10⟩ 3 ⟨[1], er [.chunk [2, 3, 4], .deadline]⟩).2.script :=
   src_recv_size_eq_model 100 ⟨4, 10⟩ _ _ 3 none 10 rfl (by simp [orDefault, TOk]) rfl (by decide) (by decide)
+
+/-! ## `recv_until` -/
+
+abbrev RuFr := Fr (BufferedSocket.St Int) (BufferedSocket.recv_until.L Int) NW
+
+theorem findFrom_eq_findIdx (d : Bytes) : ∀ xs : Bytes, findFrom d xs = findIdx d xs := by
+  intro xs
+  induction xs with
+  | nil => simp [findFrom, findIdx]
+  | cons x xs ih => simp [findFrom, findIdx, ih]
+
+theorem normIdx_nat (n k : Nat) : normIdx n (k : Int) = min k n := by
+  unfold normIdx
+  have : ¬ ((k : Int) < 0) := by omega
+  simp [this]
+
+/-- the runtime's `bytes.find` is the model's `pyFind` (for a non-negative `end`) -/
+theorem find_eq_pyFind (xs d : Bytes) (start : Int) (m : Nat) :
+    PyRtC12.find xs d start (m : Int) = match pyFind d xs start m with | some o => (o : Int) | none => -1 := by
+  unfold PyRtC12.find pyFind
+  dsimp only
+  rw [normIdx_nat, findFrom_eq_findIdx]
+  generalize (if start < 0 then (start + (xs.length : Int)).toNat else start.toNat) = s0
+  by_cases h : s0 > min m xs.length
+  · simp [h]
+  · simp only [h, if_false]
+    cases findIdx d (List.drop s0 (List.take (min m xs.length) xs)) <;> simp
+
+theorem sliceTo_nat (b : PyRtC12.Bytes) (k : Nat) : sliceTo b (k : Int) = b.take k := by
+  unfold sliceTo
+  rw [normIdx_nat]
+  by_cases h : k ≤ b.length
+  · rw [Nat.min_eq_left h]
+  · rw [Nat.min_eq_right (by omega), List.take_of_length_le (Nat.le_refl _), List.take_of_length_le (by omega)]
+
+theorem sliceFrom_nat (b : PyRtC12.Bytes) (k : Nat) : sliceFrom b (k : Int) = b.drop k := by
+  unfold sliceFrom
+  rw [normIdx_nat]
+  by_cases h : k ≤ b.length
+  · rw [Nat.min_eq_left h]
+  · rw [Nat.min_eq_right (by omega), List.drop_of_length_le (Nat.le_refl _), List.drop_of_length_le (by omega)]
+
+/-- what the result of the model's `recvUntilLoop` says about the outcome of the generated loop -/
+def RuLoopPost (self0 : BufferedSocket.St Int) (flt : Exc) (mr : Res × St) (o : Out PyRtC12.Bytes × RuFr) : Prop :=
+  o.2.self = self0 ∧
+  match mr.1 with
+  | .fuel => o.1 = .exc .outOfFuel
+  | .tooLong => o.1 = .exc .messageTooLong ∧ o.2.loc.recvd = mr.2.rbuf ∧ er o.2.w.script = mr.2.script
+  | .closed => o.1 = .exc .connectionClosed ∧ o.2.loc.recvd = mr.2.rbuf ∧ er o.2.w.script = mr.2.script
+  | .timeout => (∃ e, o.1 = .exc e ∧ FaultAs flt e) ∧ o.2.loc.recvd = mr.2.rbuf ∧ er (settle o.2.w) = mr.2.script
+  | .ok bs => o.1 = .next ∧ er o.2.w.script = mr.2.script ∧ WInv o.2.w ∧
+      bs = sliceTo o.2.loc.recvd o.2.loc.offset ∧ mr.2.rbuf = sliceFrom o.2.loc.recvd o.2.loc.rbuf_offset
+
+set_option maxHeartbeats 1000000 in
+theorem ru_loop (J : Int) (rs m : Nat) (d : Bytes) (wd : Bool) (tmo : Option Int) (hto : TOk J tmo) (lf : Nat) :
+    ∀ (n : Nat) (s : RuFr) (recvd : Bytes) (fstart : Int) (script : List Ev),
+      s.self.recvsize = (rs : Int) → s.loc.maxsize_r_1 = (m : Int) → s.loc.delimiter = d →
+      s.loc.len_delimiter = (d.length : Int) → s.loc.with_delimiter = wd → s.loc.timeout_r = tmo → s.loc.start = 0 →
+      WInv s.w → recvd = s.loc.recvd → fstart = s.loc.find_offset_start → script = er s.w.script →
+      RuLoopPost s.self (rawFault s.w.script) (recvUntilLoop rs d m wd n recvd fstart script)
+        (Blk.whileLoop (BufferedSocket.recv_until.loop1.cond (mnet J) lf) (BufferedSocket.recv_until.loop1.body (mnet J) lf)
+          (BufferedSocket.recv_until.loop1.orelse (mnet J) lf) n s) := by
+  intro n
+  induction n with
+  | zero =>
+    intro s recvd fstart script _ _ _ _ _ _ _ _ _ _ _
+    simp [Blk.whileLoop, recvUntilLoop, RuLoopPost]
+  | succ n ih =>
+    intro s recvd fstart script h1 h2 h3 h4 h5 h6 h7 h8 ha hb hsc
+    subst ha hb hsc
+    rw [recvUntilLoop]
+    have hc : BufferedSocket.recv_until.loop1.cond (mnet J) lf s = true := by
+      simp [BufferedSocket.recv_until.loop1.cond]
+    have hfind := find_eq_pyFind s.loc.recvd d s.loc.find_offset_start m
+    rw [Blk.whileLoop]
+    generalize hL : Blk.whileLoop (BufferedSocket.recv_until.loop1.cond (mnet J) lf)
+      (BufferedSocket.recv_until.loop1.body (mnet J) lf) (BufferedSocket.recv_until.loop1.orelse (mnet J) lf) n = L
+    simp only [hc, if_true, BufferedSocket.recv_until.loop1.body, Blk.seq, Blk.assign, Blk.ite, Blk.brk, Blk.skip]
+    cases hp : pyFind d s.loc.recvd s.loc.find_offset_start m with
+    | some o =>
+      rw [hp] at hfind
+      have hne : ¬ ((o : Int) = -1) := by omega
+      cases wd with
+      | true =>
+        simp [h2, h3, h4, h5, hfind, hne, RuLoopPost, h8]
+        rw [show (o : Int) + (d.length : Int) = ((o + d.length : Nat) : Int) by omega, sliceTo_nat, sliceFrom_nat]
+        simp
+      | false =>
+        simp [h2, h3, h4, h5, hfind, hne, RuLoopPost, h8]
+        rw [show (o : Int) + (d.length : Int) = ((o + d.length : Nat) : Int) by omega, sliceTo_nat, sliceFrom_nat]
+        simp
+    | none =>
+      rw [hp] at hfind
+      by_cases hlong : s.loc.recvd.length > m
+      · have hlongI : (m : Int) < (s.loc.recvd.length : Int) := by omega
+        simp [h2, h3, hfind, len, hlong, hlongI, RuLoopPost, Blk.raise]
+      · have hlongI : ¬ (m : Int) < (s.loc.recvd.length : Int) := by omega
+        have hspec := netRecv_spec rs s.w.script
+        -- does the deadline check fire?
+        by_cases hfire : (mnet J).truthyOpt tmo = true ∧ s.w.late = true
+        · obtain ⟨htr, hlate⟩ := hfire
+          obtain ⟨r, hr⟩ := er_deadline (h8 hlate)
+          cases tmo with
+          | none => simp [mnet_truthy_none] at htr
+          | some t =>
+            have ht0 : t ≠ 0 := by simpa [mnet_truthy_some] using htr
+            have hle : t - J ≤ 0 := by have := hto.2; omega
+            simp [h2, h3, h4, h5, h6, h7, hfind, len, hlong, hlongI, mnet_truthy_some, mnet_time, mnet_fsub, mnet_fle, mnet_fzero,
+              Blk.call, Blk.raise, ht0, hlate, hle, unwrap,
+              RuLoopPost, FaultAs, hr, er, NEv.ev, sockRecv, rawFault, settle]
+        · have hchk : (mnet J).truthyOpt tmo = false ∨ (s.w.late = false ∧ ∃ t, tmo = some t ∧ 0 < t) := by
+            cases tmo with
+            | none => simp [mnet_truthy_none]
+            | some t =>
+              by_cases ht0 : t = 0
+              · simp [mnet_truthy_some, ht0]
+              · right
+                have htr : (mnet J).truthyOpt (some t) = true := by simp [mnet_truthy_some, ht0]
+                have h0 := hto.1
+                refine ⟨by simpa [htr] using hfire, t, rfl, by omega⟩
+          cases hsr : sockRecv rs (er s.w.script) with
+          | data d' r =>
+            rw [hsr] at hspec
+            obtain ⟨w', hw1, hw2, hw3, hw4⟩ := hspec
+            subst hw2
+            rw [← hw4.1]
+            by_cases hd : d' = []
+            · rcases hchk with hno | ⟨hlate, t, rfl, htpos⟩
+              · simp [h2, h3, h4, h5, h6, h7, hfind, len, hlong, hlongI, hno, Blk.call, Blk.raise, mnet_recv, h1, hw1, hd, truthy, RuLoopPost]
+              · have hnle : ¬ t ≤ 0 := by omega
+                have ht0 : t ≠ 0 := by omega
+                simp [h2, h3, h4, h5, h6, h7, hfind, len, hlong, hlongI, mnet_truthy_some, mnet_time, mnet_fsub, mnet_fle, mnet_fzero,
+                  mnet_settimeout, Blk.call, Blk.raise, mnet_recv, h1, hw1, hlate, ht0, hnle, unwrap, hd, truthy, RuLoopPost]
+            · rcases hchk with hno | ⟨hlate, t, rfl, htpos⟩
+              · simp [h2, h3, h4, h5, h6, h7, hfind, len, hlong, hlongI, hno, Blk.call, mnet_recv, h1, hw1, hd, truthy]
+                subst hL
+                generalize hF : (Fr.mk _ _ _ : RuFr) = F
+                have key := ih F (s.loc.recvd ++ d') (-(d'.length : Int) - (d.length : Int) + 1) (er w'.script)
+                  (by subst hF; first | rfl | assumption | simp [h1, h2, h3, h4, h5, h6, h7, hw3, len]) (by subst hF; first | rfl | assumption | simp [h1, h2, h3, h4, h5, h6, h7, hw3, len]) (by subst hF; first | rfl | assumption | simp [h1, h2, h3, h4, h5, h6, h7, hw3, len]) (by subst hF; first | rfl | assumption | simp [h1, h2, h3, h4, h5, h6, h7, hw3, len]) (by subst hF; first | rfl | assumption | simp [h1, h2, h3, h4, h5, h6, h7, hw3, len])
+                  (by subst hF; first | rfl | assumption | simp [h1, h2, h3, h4, h5, h6, h7, hw3, len]) (by subst hF; first | rfl | assumption | simp [h1, h2, h3, h4, h5, h6, h7, hw3, len]) (by subst hF; first | rfl | assumption | simp [h1, h2, h3, h4, h5, h6, h7, hw3, len]) (by subst hF; first | rfl | assumption | simp [h1, h2, h3, h4, h5, h6, h7, hw3, len]) (by subst hF; first | rfl | assumption | simp [h1, h2, h3, h4, h5, h6, h7, hw3, len]) (by subst hF; first | rfl | assumption | simp [h1, h2, h3, h4, h5, h6, h7, hw3, len])
+                subst hF
+                exact key
+              · have hnle : ¬ t ≤ 0 := by omega
+                have ht0 : t ≠ 0 := by omega
+                simp [h2, h3, h4, h5, h6, h7, hfind, len, hlong, hlongI, mnet_truthy_some, mnet_time, mnet_fsub, mnet_fle, mnet_fzero,
+                  mnet_settimeout, Blk.call, mnet_recv, h1, hw1, hlate, ht0, hnle, unwrap, hd, truthy]
+                subst hL
+                generalize hF : (Fr.mk _ _ _ : RuFr) = F
+                have key := ih F (s.loc.recvd ++ d') (-(d'.length : Int) - (d.length : Int) + 1) (er w'.script)
+                  (by subst hF; first | rfl | assumption | simp [h1, h2, h3, h4, h5, h6, h7, hw3, len]) (by subst hF; first | rfl | assumption | simp [h1, h2, h3, h4, h5, h6, h7, hw3, len]) (by subst hF; first | rfl | assumption | simp [h1, h2, h3, h4, h5, h6, h7, hw3, len]) (by subst hF; first | rfl | assumption | simp [h1, h2, h3, h4, h5, h6, h7, hw3, len]) (by subst hF; first | rfl | assumption | simp [h1, h2, h3, h4, h5, h6, h7, hw3, len])
+                  (by subst hF; first | rfl | assumption | simp [h1, h2, h3, h4, h5, h6, h7, hw3, len]) (by subst hF; first | rfl | assumption | simp [h1, h2, h3, h4, h5, h6, h7, hw3, len]) (by subst hF; first | rfl | assumption | simp [h1, h2, h3, h4, h5, h6, h7, hw3, len]) (by subst hF; first | rfl | assumption | simp [h1, h2, h3, h4, h5, h6, h7, hw3, len]) (by subst hF; first | rfl | assumption | simp [h1, h2, h3, h4, h5, h6, h7, hw3, len]) (by subst hF; first | rfl | assumption | simp [h1, h2, h3, h4, h5, h6, h7, hw3, len])
+                subst hF
+                exact key
+          | timeout r =>
+            rw [hsr] at hspec
+            obtain ⟨w', hw1, hw2, hw3⟩ := hspec
+            subst hw2
+            rcases hchk with hno | ⟨hlate, t, rfl, htpos⟩
+            · simp [h2, h3, h4, h5, h6, h7, hfind, len, hlong, hlongI, hno, Blk.call, mnet_recv, h1, hw1, RuLoopPost, FaultAs, settle, hw3]
+            · have hnle : ¬ t ≤ 0 := by omega
+              have ht0 : t ≠ 0 := by omega
+              simp [h2, h3, h4, h5, h6, h7, hfind, len, hlong, hlongI, mnet_truthy_some, mnet_time, mnet_fsub, mnet_fle, mnet_fzero,
+                mnet_settimeout, Blk.call, mnet_recv, h1, hw1, hlate, ht0, hnle, unwrap, RuLoopPost, FaultAs, settle, hw3]
+
+theorem recvUntilLoop_mono (rs : Nat) (d : Bytes) (m : Nat) (wd : Bool) :
+    ∀ (n : Nat) (recvd : Bytes) (fstart : Int) (script : List Ev),
+    (recvUntilLoop rs d m wd n recvd fstart script).1 ≠ .fuel →
+    ∀ k, recvUntilLoop rs d m wd (n + k) recvd fstart script = recvUntilLoop rs d m wd n recvd fstart script := by
+  intro n
+  induction n with
+  | zero => intro recvd fstart script h; simp [recvUntilLoop] at h
+  | succ n ih =>
+    intro recvd fstart script h k
+    rw [show n + 1 + k = (n + k) + 1 by omega]
+    rw [recvUntilLoop] at h ⊢
+    rw [recvUntilLoop]
+    cases hp : pyFind d recvd fstart m with
+    | some o => simp
+    | none =>
+      simp only [hp] at h ⊢
+      by_cases hl : recvd.length > m
+      · simp [hl]
+      · simp only [hl, if_false] at h ⊢
+        cases hsr : sockRecv rs script with
+        | timeout r => simp
+        | data nx r =>
+          simp only [hsr] at h ⊢
+          by_cases hn : nx = []
+          · simp [hn]
+          · simp only [hn, if_false] at h ⊢
+            exact ih _ _ _ h k
+
+theorem recvUntil_ne_fuel (cfg : Cfg) (hrs : 0 < cfg.recvsize) (d : Bytes) (m : Nat) (wd : Bool) (st : St) :
+    (recvUntil cfg d m wd st).1 ≠ .fuel := by
+  have := recvUntil_ok cfg hrs d m wd st
+  intro hf
+  rcases this with ⟨a, _⟩ | ⟨_, b, _⟩
+  · rw [hf] at a; cases a
+  · rw [hf] at b
+    unfold specUntil at b
+    split at b
+    · cases b
+    · split at b <;> cases b
+
+/-- the `maxsize=` argument as the generated definition receives it -/
+def maxArg : Max → Option (Option Int)
+  | .unset => none
+  | .none => some none
+  | .some n => some (some (n : Int))
+
+theorem maxArg_resolve (mx : Max) (selfMax : Nat) :
+    orDefault (orDefault (maxArg mx) (some (selfMax : Int))) (1125899906842624 : Int)
+      = ((mx.resolve Gen.RECV_LARGE_MAXSIZE selfMax : Nat) : Int) := by
+  cases mx <;> simp [maxArg, orDefault, Max.resolve, Gen.RECV_LARGE_MAXSIZE]
+
+set_option maxHeartbeats 1000000 in
+/-- **`BufferedSocket.recv_until`, as regenerated from the source, is the model's `recvUntil`** on the model's network,
+    with the `maxsize` argument resolved as the model's `Max.resolve` says (`_UNSET` → `self.maxsize`, `None` →
+    `_RECV_LARGE_MAXSIZE`, the regenerated constant): value / `MessageTooLong` / `ConnectionClosed` / fault class, the
+    leftover bytes in `rbuf`, nothing else changed, the script consumed as the model says, no `outOfFuel` with fuel
+    `≥ measure + 1`. -/
+theorem src_recv_until_eq_model (J : Int) (cfg : Cfg) (st : BufferedSocket.St Int) (w : NW) (d : Bytes)
+    (targ : Option (Option Int)) (mx : Max) (selfMax : Nat) (wd : Bool) (lfuel : Nat)
+    (hlate : w.late = false) (hto : TOk J (orDefault targ st.timeout)) (hrs : st.recvsize = (cfg.recvsize : Int))
+    (hmax : st.maxsize = (selfMax : Int)) (hpos : 0 < cfg.recvsize) (hf : measure (er w.script) + 1 ≤ lfuel) :
+    ∃ w', BufferedSocket.recv_until (mnet J) lfuel st d targ (maxArg mx) wd w
+        = (outcome (callerFault w.script)
+             (recvUntil cfg d (mx.resolve Gen.RECV_LARGE_MAXSIZE selfMax) wd ⟨st.rbuf, er w.script⟩).1,
+           { st with rbuf := (recvUntil cfg d (mx.resolve Gen.RECV_LARGE_MAXSIZE selfMax) wd ⟨st.rbuf, er w.script⟩).2.rbuf }, w') ∧
+      er (scriptAfter (recvUntil cfg d (mx.resolve Gen.RECV_LARGE_MAXSIZE selfMax) wd ⟨st.rbuf, er w.script⟩).1 w')
+        = (recvUntil cfg d (mx.resolve Gen.RECV_LARGE_MAXSIZE selfMax) wd ⟨st.rbuf, er w.script⟩).2.script := by
+  have hne := recvUntil_ne_fuel cfg hpos d (mx.resolve Gen.RECV_LARGE_MAXSIZE selfMax) wd ⟨st.rbuf, er w.script⟩
+  generalize hmm : mx.resolve Gen.RECV_LARGE_MAXSIZE selfMax = m at hne ⊢
+  have hmr := maxArg_resolve mx selfMax
+  rw [hmm] at hmr
+  unfold recvUntil at hne ⊢
+  have hmono := recvUntilLoop_mono cfg.recvsize d m wd _ _ _ _ hne (lfuel - (measure (er w.script) + 1))
+  simp only [] at hmono hne
+  rw [show measure (er w.script) + 1 + (lfuel - (measure (er w.script) + 1)) = lfuel by omega] at hmono
+  rw [← hmono]
+  unfold BufferedSocket.recv_until runMethod BufferedSocket.recv_until.body
+  cases htr : (mnet J).truthyOpt (orDefault targ st.timeout) <;>
+  · simp [Blk.seq, Blk.assign, Blk.call, Blk.tryExcept, Blk.ite, Blk.skip, mnet_time, mnet_settimeout, hlate, htr, hmax, hmr]
+    generalize hF : (Fr.mk _ _ _ : RuFr) = F
+    have key := ru_loop J cfg.recvsize m d wd _ hto lfuel lfuel F st.rbuf 0 (er w.script)
+      (by subst hF; exact hrs) (by subst hF; rfl) (by subst hF; rfl) (by subst hF; rfl) (by subst hF; rfl)
+      (by subst hF; rfl) (by subst hF; rfl) (by subst hF; simp [WInv, hlate]) (by subst hF; rfl) (by subst hF; rfl)
+      (by subst hF; rfl)
+    have hFs : F.self = st := by subst hF; rfl
+    have hFw : F.w = w := by subst hF; rfl
+    rw [hFs, hFw] at key
+    clear hFs hFw hF
+    generalize Blk.whileLoop _ _ _ lfuel F = O at key ⊢
+    obtain ⟨o, F'⟩ := O
+    have hraw := callerFault_of_raw w.script
+    cases hm : recvUntilLoop cfg.recvsize d m wd lfuel st.rbuf 0 (er w.script) with
+    | mk r mm =>
+      rw [hm] at key hmono
+      simp only [RuLoopPost] at key
+      obtain ⟨k1, k3⟩ := key
+      cases r with
+      | fuel => exact absurd (by rw [← hmono]) hne
+      | tooLong =>
+        obtain ⟨k3, k4, k5⟩ := k3
+        subst k3
+        refine ⟨F'.w, ?_, ?_⟩
+        · simp [finishMethod, outcome, Blk.seq, Blk.assign, Blk.raise, Exc.isSockTimeout, Exc.isException, k1, k4, hrs, hmax]
+        · simp [scriptAfter, k5]
+      | closed =>
+        obtain ⟨k3, k4, k5⟩ := k3
+        subst k3
+        refine ⟨F'.w, ?_, ?_⟩
+        · simp [finishMethod, outcome, Blk.seq, Blk.assign, Blk.raise, Exc.isSockTimeout, Exc.isException, k1, k4, hrs, hmax]
+        · simp [scriptAfter, k5]
+      | timeout =>
+        obtain ⟨⟨e, k3, kf⟩, k4, k5⟩ := k3
+        subst k3
+        refine ⟨F'.w, ?_, ?_⟩
+        · rcases hraw with ⟨ha, hb2⟩ | ⟨t, ha, hb2⟩
+          · rcases kf with kf | ⟨_, kf⟩ <;> subst kf <;>
+              simp [finishMethod, outcome, Blk.seq, Blk.assign, Blk.raise, Exc.isSockTimeout, Exc.isException, k1, k4, hrs, hmax, ha, hb2]
+          · rcases kf with kf | ⟨kf0, _⟩
+            · subst kf
+              simp [finishMethod, outcome, Blk.seq, Blk.assign, Blk.raise, Exc.isSockTimeout, Exc.isException, k1, k4, hrs, hmax, ha, hb2]
+            · rw [ha] at kf0; cases kf0
+        · simp [scriptAfter, k5]
+      | ok bs =>
+        obtain ⟨k3, k4, k5, k6, k7⟩ := k3
+        subst k3
+        refine ⟨F'.w, ?_, ?_⟩
+        · simp [finishMethod, outcome, Blk.seq, Blk.assign, Blk.skip, Blk.ret, k1, k6, k7, hrs, hmax]
+        · simp [scriptAfter, k4]
+
+/-- non-vacuity: `recv_until(b"\r\n")` with the delimiter split across two chunks, one byte buffered: returns `01 02`, keeps `05` -/
+example : (BufferedSocket.recv_until (mnet 100) 10 ⟨[1], [], 10, some 5, 4⟩ [13, 10] none none false
+      ⟨[.chunk [2, 13], .chunk [10, 5]], false⟩)
+    = (.ok [1, 2], ⟨[5], [], 10, some 5, 4⟩, ⟨[], false⟩) := by rfl
+/-- the delimiter is not within `maxsize = 2` bytes: `MessageTooLong`, everything read stays in `rbuf` -/
+example : (BufferedSocket.recv_until (mnet 100) 10 ⟨[1], [], 10, some 5, 4⟩ [13, 10] none (some (some 2)) false
+      ⟨[.chunk [2, 3], .chunk [13, 10]], false⟩).1 = .error .messageTooLong := by rfl
+
+/-! ## `peek`, `recv_close`, `recv` -/
+
+/-- **`BufferedSocket.peek`, as regenerated from the source, is the model's `peek`** (the generated `recv_size` is used
+    through its own tie theorem) -/
+theorem src_peek_eq_model (J : Int) (cfg : Cfg) (st : BufferedSocket.St Int) (w : NW) (size : Nat)
+    (targ : Option (Option Int)) (lfuel : Nat)
+    (hlate : w.late = false) (hto : TOk J (orDefault targ st.timeout)) (hrs : st.recvsize = (cfg.recvsize : Int))
+    (hpos : 0 < cfg.recvsize) (hf : measure (er w.script) + 2 ≤ lfuel) :
+    ∃ w', BufferedSocket.peek (mnet J) lfuel st (size : Int) targ w
+        = (outcome (callerFault w.script) (peek cfg size ⟨st.rbuf, er w.script⟩).1,
+           { st with rbuf := (peek cfg size ⟨st.rbuf, er w.script⟩).2.rbuf }, w') ∧
+      er (scriptAfter (peek cfg size ⟨st.rbuf, er w.script⟩).1 w') = (peek cfg size ⟨st.rbuf, er w.script⟩).2.script := by
+  unfold BufferedSocket.peek runMethod BufferedSocket.peek.body peek
+  by_cases hge : st.rbuf.length ≥ size
+  · have hgeI : (size : Int) ≤ (st.rbuf.length : Int) := by omega
+    refine ⟨w, ?_, ?_⟩
+    · simp [Blk.seq, Blk.ite, Blk.ret, finishMethod, outcome, len, hge, hgeI, sliceTo_nat]
+    · simp [hge, scriptAfter]
+  · have hgeI : ¬ (size : Int) ≤ (st.rbuf.length : Int) := by omega
+    obtain ⟨w', h1, h2⟩ := src_recv_size_eq_model J cfg st w size targ lfuel hlate hto hrs hpos hf
+    refine ⟨w', ?_, ?_⟩
+    · simp only [hge, if_false]
+      cases hm : recvSize cfg size ⟨st.rbuf, er w.script⟩ with
+      | mk r m =>
+        rw [hm] at h1
+        cases r <;>
+          simp [Blk.seq, Blk.ite, Blk.ret, Blk.skip, Blk.callm, Blk.assign, finishMethod, outcome, len, hgeI, h1]
+    · simp only [hge, if_false]
+      cases hm : recvSize cfg size ⟨st.rbuf, er w.script⟩ with
+      | mk r m =>
+        rw [hm] at h2
+        cases r <;> simpa [scriptAfter] using h2
+
+/-- **`BufferedSocket.recv_close`, as regenerated from the source, is the model's `recvClose`** with the `maxsize`
+    argument resolved as `Max.resolve` says -/
+theorem src_recv_close_eq_model (J : Int) (cfg : Cfg) (st : BufferedSocket.St Int) (w : NW)
+    (targ : Option (Option Int)) (mx : Max) (selfMax : Nat) (lfuel : Nat)
+    (hlate : w.late = false) (hto : TOk J (orDefault targ st.timeout)) (hrs : st.recvsize = (cfg.recvsize : Int))
+    (hmax : st.maxsize = (selfMax : Int)) (hpos : 0 < cfg.recvsize) (hf : measure (er w.script) + 2 ≤ lfuel) :
+    ∃ w', BufferedSocket.recv_close (mnet J) lfuel st targ (maxArg mx) w
+        = (outcome (callerFault w.script)
+             (recvClose cfg (mx.resolve Gen.RECV_LARGE_MAXSIZE selfMax) ⟨st.rbuf, er w.script⟩).1,
+           { st with rbuf := (recvClose cfg (mx.resolve Gen.RECV_LARGE_MAXSIZE selfMax) ⟨st.rbuf, er w.script⟩).2.rbuf }, w') ∧
+      er (scriptAfter (recvClose cfg (mx.resolve Gen.RECV_LARGE_MAXSIZE selfMax) ⟨st.rbuf, er w.script⟩).1 w')
+        = (recvClose cfg (mx.resolve Gen.RECV_LARGE_MAXSIZE selfMax) ⟨st.rbuf, er w.script⟩).2.script := by
+  have hmr := maxArg_resolve mx selfMax
+  generalize mx.resolve Gen.RECV_LARGE_MAXSIZE selfMax = m at hmr ⊢
+  unfold BufferedSocket.recv_close runMethod BufferedSocket.recv_close.body recvClose
+  obtain ⟨w', h1, h2⟩ := src_recv_size_eq_model J cfg st w (m + 1) targ lfuel hlate hto hrs hpos hf
+  have hcast : ((m : Int) + 1) = ((m + 1 : Nat) : Int) := by omega
+  refine ⟨w', ?_, ?_⟩
+  · cases hm : recvSize cfg (m + 1) ⟨st.rbuf, er w.script⟩ with
+    | mk r mm =>
+      rw [hm] at h1
+      push_cast at h1
+      rcases callerFault_of_raw w.script with ⟨ha, hb2⟩ | ⟨t, ha, hb2⟩ <;>
+      cases r <;>
+        simp [Blk.seq, Blk.ret, Blk.skip, Blk.callm, Blk.assign, Blk.tryExcept, Blk.raise, finishMethod, outcome, hmax, hmr,
+          h1, Exc.isConnectionClosed, hb2]
+  · cases hm : recvSize cfg (m + 1) ⟨st.rbuf, er w.script⟩ with
+    | mk r mm =>
+      rw [hm] at h2
+      cases r <;> simpa [scriptAfter] using h2
+
+/-- **`BufferedSocket.recv`, as regenerated from the source, is the model's `recv`** (`flags = 0`): the buffer first, then
+    ONE `sock.recv(self._recvsize)`, the surplus kept in `rbuf`; a `socket.timeout` becomes `Timeout`, another OSError of
+    the socket passes through -/
+theorem src_recv_eq_model (J : Int) (cfg : Cfg) (st : BufferedSocket.St Int) (w : NW) (size : Nat)
+    (targ : Option (Option Int)) (hrs : st.recvsize = (cfg.recvsize : Int)) :
+    ∃ w', BufferedSocket.recv (mnet J) st (size : Int) 0 targ w
+        = (outcome (callerFault w.script) (recv cfg size ⟨st.rbuf, er w.script⟩).1,
+           { st with rbuf := (recv cfg size ⟨st.rbuf, er w.script⟩).2.rbuf }, w') ∧
+      er (scriptAfter (recv cfg size ⟨st.rbuf, er w.script⟩).1 w') = (recv cfg size ⟨st.rbuf, er w.script⟩).2.script := by
+  unfold BufferedSocket.recv runMethod BufferedSocket.recv.body recv
+  by_cases hge : st.rbuf.length ≥ size
+  · have hgeI : (size : Int) ≤ (st.rbuf.length : Int) := by omega
+    refine ⟨w, ?_, ?_⟩
+    · simp [Blk.seq, Blk.ite, Blk.ret, Blk.assign, Blk.skip, finishMethod, outcome, len, hge, hgeI, sliceTo_nat, sliceFrom_nat]
+    · simp [hge, scriptAfter]
+  · have hgeI : ¬ (size : Int) ≤ (st.rbuf.length : Int) := by omega
+    by_cases hb : st.rbuf = []
+    · have hspec := netRecv_spec cfg.recvsize w.script
+      have hs0 : ¬ size = 0 := by intro h; apply hge; omega
+      obtain ⟨rb, sb, ms, tmo0, rsz⟩ := st
+      simp only at hrs hb
+      subst hb hrs
+      cases hsr : sockRecv cfg.recvsize (er w.script) with
+      | timeout r =>
+        rw [hsr] at hspec
+        obtain ⟨w', hw1, hw2, hw3⟩ := hspec
+        refine ⟨w', ?_, ?_⟩
+        · rcases callerFault_of_raw w.script with ⟨ha, hb2⟩ | ⟨t, ha, hb2⟩ <;>
+            simp [Blk.seq, Blk.ite, Blk.ret, Blk.assign, Blk.skip, Blk.call, Blk.tryExcept, Blk.raise, finishMethod, outcome, len,
+              hs0, truthy, mnet_settimeout, mnet_recv, hw1, ha, hb2, Exc.isSockTimeout]
+        · simp [hs0, scriptAfter, settle, hw3, hw2]
+      | data dd r =>
+        rw [hsr] at hspec
+        obtain ⟨w', hw1, hw2, hw3, hw4⟩ := hspec
+        refine ⟨w', ?_, ?_⟩
+        · by_cases hl : dd.length > size
+          · have hlI : (size : Int) < (dd.length : Int) := by omega
+            simp [Blk.seq, Blk.ite, Blk.ret, Blk.assign, Blk.skip, Blk.call, Blk.tryExcept, finishMethod, outcome, len,
+              hs0, truthy, mnet_settimeout, mnet_recv, hw1, hl, hlI, sliceTo_nat, sliceFrom_nat]
+          · have hlI : ¬ (size : Int) < (dd.length : Int) := by omega
+            simp [Blk.seq, Blk.ite, Blk.ret, Blk.assign, Blk.skip, Blk.call, Blk.tryExcept, finishMethod, outcome, len,
+              hs0, truthy, mnet_settimeout, mnet_recv, hw1, hl, hlI]
+        · by_cases hl : dd.length > size <;> simp [hs0, scriptAfter, hw2, hl]
+    · refine ⟨w, ?_, ?_⟩
+      · simp [Blk.seq, Blk.ite, Blk.ret, Blk.assign, Blk.skip, finishMethod, outcome, len, hge, hgeI, hb, truthy]
+      · simp [hge, hb, scriptAfter]
+
+/-- non-zero `flags`: `ValueError` before anything is touched (Model3.lean's `recvFlags`) -/
+theorem src_recv_flags (J : Int) (st : BufferedSocket.St Int) (w : NW) (size flags : Int)
+    (targ : Option (Option Int)) (hfl : flags ≠ 0) :
+    BufferedSocket.recv (mnet J) st size flags targ w = (.error .valueError, st, w) := by
+  simp [BufferedSocket.recv, runMethod, BufferedSocket.recv.body, Blk.seq, Blk.ite, Blk.assign, Blk.raise, finishMethod, hfl]
 
 end C12
